@@ -1,1 +1,87 @@
-/-! # C11 — property theorems (to be filled in) -/
+import JokerVerif.Lemmas.McmcLemmas
+/-!
+# C11 — MCMC continuation targets the same model and posterior
+
+Property theorems only, over `ℝ` (for every true-anomaly function `ta`, i.e. whatever Kepler solver is used, as
+long as both models call the same one), for all parameter values, epochs, trend orders and numbers of offsets.
+-/
+namespace Mcmc
+
+/-- for any parameter values and any epoch the pymc model predicts the sampler's radial velocity: same phase
+(`(x − P M0/2π)·2π/P = 2πx/P − M0`), same reference epoch (`x = t − t_ref`), `cos(ω+f)` expanded, same trend
+matrix function, same offset columns -/
+theorem mcmc_rv_eq_sampler_rv (ta : ℝ → ℝ → ℝ) (p : Par ℝ) (o : Obs ℝ) (hP : p.P ≠ 0) :
+    mcmcRV (realFn ta) p o = samplerRV (realFn ta) p o := by
+  unfold mcmcRV samplerRV
+  simp only [meanAnomaly_eq ta p.P p.M0 o.x hP, realFn_cos, realFn_sin, realFn_trueAnom, Real.cos_add]
+
+/-- in the declared units: converting the prior's units to internal ones first, the two models still agree -/
+theorem mcmc_rv_eq_sampler_rv_declared (ta : ℝ → ℝ → ℝ) (u : Units ℝ) (p : Par ℝ) (o : Obs ℝ)
+    (hP : u.cP * p.P ≠ 0) :
+    mcmcRV (realFn ta) (toInternal u p) o = samplerRV (realFn ta) (toInternal u p) o :=
+  mcmc_rv_eq_sampler_rv ta (toInternal u p) o hP
+
+/-- hence the Gaussian data terms coincide on every data set -/
+theorem dataTerm_eq (ta : ℝ → ℝ → ℝ) (p : Par ℝ) (obs : List (Obs ℝ)) (hP : p.P ≠ 0) :
+    dataTerm (realFn ta) p (mcmcRV (realFn ta)) obs = dataTerm (realFn ta) p (samplerRV (realFn ta)) obs := by
+  induction obs with
+  | nil => rfl
+  | cons o os ih => simp only [dataTerm, ih, mcmc_rv_eq_sampler_rv ta p o hP]
+
+/-- `logp = ln prior(declared densities) + ln N(y | rv, σ² + s²)`; the stored `ln_likelihood` is that Gaussian
+term; the stored `ln_prior = logp − ln_likelihood` is the prior term -/
+theorem mcmc_logp_decomposition (lnPrior data : ℝ) :
+    (diagnostics lnPrior data).logp = lnPrior + data ∧
+    (diagnostics lnPrior data).lnLikelihood = data ∧
+    (diagnostics lnPrior data).lnPrior = lnPrior := by
+  refine ⟨rfl, rfl, ?_⟩
+  simp [diagnostics]
+
+/-- the density the chain targets is prior × Gaussian likelihood of the *sampler's* model -/
+theorem logDensity_targets_sampler_posterior (ta : ℝ → ℝ → ℝ) (lnPrior : Par ℝ → Option ℝ) (u : Units ℝ)
+    (obs : List (Obs ℝ)) (p : Par ℝ) (hP : u.cP * p.P ≠ 0) :
+    logDensity (realFn ta) lnPrior u obs p =
+      (lnPrior p).map (· + dataTerm (realFn ta) (toInternal u p) (samplerRV (realFn ta)) obs) := by
+  unfold logDensity
+  rw [dataTerm_eq ta (toInternal u p) obs hP]
+
+/-- the data term is the sum of `ln N(y_i | rv_i, σ_i² + s²)`: jitter enters the variance -/
+theorem dataTerm_cons (F : Fn ℝ) (p : Par ℝ) (rv : Par ℝ → Obs ℝ → ℝ) (o : Obs ℝ) (os : List (Obs ℝ)) :
+    dataTerm F p rv (o :: os) =
+      (-((o.y - rv p o) * (o.y - rv p o)) / (2 * (o.sigma * o.sigma + p.s * p.s))
+        - F.log (2 * F.pi * (o.sigma * o.sigma + p.s * p.s)) / 2) + dataTerm F p rv os := rfl
+
+/-- with several samples the initial point exists, is an actual member row, and its period is the `⌊N/2⌋`-th order
+statistic of the periods; it is returned through the unit conversion `conv` (prior units) -/
+theorem init_is_median_period_row {ρ : Type} (rows : List ρ) (period : ρ → ℝ) (conv : ρ → ρ) (hne : rows ≠ []) :
+    ∃ (i : Nat) (hi : i < rows.length), initPoint rows period conv = some (conv rows[i]) ∧
+      IsOrderStat (rows.map period) (rows.length / 2) (period rows[i]) := by
+  have hne' : rows.map period ≠ [] := by simpa using hne
+  obtain ⟨i, hi⟩ := medianIdx_isSome (rows.map period) hne'
+  obtain ⟨hlt, hstat⟩ := medianIdx_spec (rows.map period) i hi
+  have hlt' : i < rows.length := by simpa using hlt
+  refine ⟨i, hlt', ?_, ?_⟩
+  · simp [initPoint, hi, List.getElem?_eq_getElem hlt']
+  · simpa using hstat
+
+/-- the order statistic is unique: any two admissible choices have the same period -/
+theorem median_period_unique (ps : List ℝ) (x y : ℝ) (hx : IsOrderStat ps (ps.length / 2) x)
+    (hy : IsOrderStat ps (ps.length / 2) y) : x = y :=
+  orderStat_unique ps _ x y hx hy
+
+/-- a single sample is its own initial point -/
+theorem init_single {ρ : Type} (r : ρ) (period : ρ → ℝ) (conv : ρ → ρ) : initPoint [r] period conv = some (conv r) := by
+  obtain ⟨i, hi, h, _⟩ := init_is_median_period_row [r] period conv (by simp)
+  have : i = 0 := by simpa using hi
+  subst this
+  simpa using h
+
+/-! ### non-vacuity -/
+example : medianIdx [5, 1, 9, 3] = some 0 := by decide
+example : medianIdx [5, 1, 9, 3, 7] = some 0 := by decide
+example : medianIdx [2, 8, 4] = some 2 := by decide
+example : IsOrderStat [5, 1, 9, 3] 2 5 := by decide
+example : trend (⟨1, 0, 0, 0, 0, 0, [10, 2, 1], [7, 8]⟩ : Par Int) ⟨3, 2, 0, 0⟩ = 10 + 2 * 3 + 1 * 9 + 8 := by decide
+example : ∃ p : Par ℝ, p.P ≠ 0 := ⟨⟨1, 0, 0, 0, 0, 0, [], []⟩, one_ne_zero⟩
+
+end Mcmc
